@@ -196,6 +196,7 @@ type scenario struct {
 	actors   []*actor
 	pubHeads map[ton.BlockIDExt]struct{}
 	panics   int
+	sigs     []string
 }
 
 func newScenario(w *mon.Worker, name string, rng *mon.Rng) *scenario {
@@ -519,8 +520,36 @@ func (sc *scenario) waitWatched(wg *sync.WaitGroup) bool {
 	}
 }
 
+func (sc *scenario) violate(sig string, witness any) {
+	sc.mu.Lock()
+	seen := false
+	for _, x := range sc.sigs {
+		seen = seen || x == sig
+	}
+	if !seen {
+		sc.sigs = append(sc.sigs, sig)
+	}
+	sc.mu.Unlock()
+	sc.w.Violation(sig, witness)
+}
+
+// outcome records, for directed scenarios, what the scenario ended with.
+func (sc *scenario) outcome() {
+	if !strings.HasPrefix(sc.name, "directed/") {
+		return
+	}
+	sc.mu.Lock()
+	o := "held"
+	if len(sc.sigs) > 0 {
+		o = strings.Join(sc.sigs, ", ")
+	}
+	sc.mu.Unlock()
+	sc.w.Seen("directed_outcomes", sc.name+" -> "+o)
+}
+
 // finish waits for the actors (watchdog), stops the pool and evaluates.
 func (sc *scenario) finish(stopPublishers func()) {
+	defer sc.outcome()
 	okW := sc.waitWatched(&sc.wgW)
 	if stopPublishers != nil {
 		stopPublishers()
@@ -641,7 +670,7 @@ func (sc *scenario) watchdog(what string) {
 	if len(stacks) > 8 {
 		stacks = stacks[:8]
 	}
-	sc.w.Violation(sig, map[string]any{"scenario": sc.desc, "still_blocked_after": (sc.maxPlan + slack + watchdogAfter).String(), "watched": what,
+	sc.violate(sig, map[string]any{"scenario": sc.desc, "still_blocked_after": (sc.maxPlan + slack + watchdogAfter).String(), "watched": what,
 		"pending_ops": sc.pending(), "stacks": stacks, "hook_counts": sc.countsMap()})
 	sc.evaluate(false)
 }
@@ -865,18 +894,18 @@ func (sc *scenario) evaluate(complete bool) {
 		case o.Res == "ok":
 		case o.Res == "timeout" && o.Kind == "wait":
 			if elapsed < timeout-2*time.Millisecond {
-				w.Violation("early-timeout@"+site, wit(map[string]any{"elapsed": elapsed.String()}))
+				sc.violate("early-timeout@"+site, wit(map[string]any{"elapsed": elapsed.String()}))
 			}
 		case o.Res == "cancel" && o.Kind == "wait":
 			if o.CancelledAt == 0 || o.CancelledAt > o.Ret {
-				w.Violation("spurious-cancel@"+site, wit(nil))
+				sc.violate("spurious-cancel@"+site, wit(nil))
 			}
 		case o.Res == "deadline" && o.Kind == "bmc":
 			if elapsed < timeout-2*time.Millisecond {
-				w.Violation("early-timeout@"+site, wit(map[string]any{"elapsed": elapsed.String()}))
+				sc.violate("early-timeout@"+site, wit(map[string]any{"elapsed": elapsed.String()}))
 			}
 		default:
-			w.Violation("unexpected-error@"+site, wit(nil))
+			sc.violate("unexpected-error@"+site, wit(nil))
 		}
 		// deadline monitor: measured from the call
 		w.Count("deadline_checked", 1)
@@ -893,7 +922,7 @@ func (sc *scenario) evaluate(complete bool) {
 				if o.Kind == "bmc" {
 					cls = ""
 				}
-				w.Violation("late-return@"+site+cls, wit(map[string]any{"elapsed": elapsed.String(), "allowed": (limit + slack).String(),
+				sc.violate("late-return@"+site+cls, wit(map[string]any{"elapsed": elapsed.String(), "allowed": (limit + slack).String(),
 					"head_updates_received_during_call": o.HeadsSeen}))
 			}
 		}
@@ -923,7 +952,7 @@ func (sc *scenario) evaluate(complete bool) {
 							w.Inconclusive("missed head while the machine was stalling")
 						}
 					} else {
-						w.Violation("missed-head@"+site+"/"+o.Res, wit(map[string]any{"published": *hit, "best_connection": x,
+						sc.violate("missed-head@"+site+"/"+o.Res, wit(map[string]any{"published": *hit, "best_connection": x,
 							"margin_before_deadline": time.Duration(deadline - hit.Ret).String()}))
 					}
 				}
@@ -933,7 +962,7 @@ func (sc *scenario) evaluate(complete bool) {
 			w.Count("results/wait/ok-by-notification", 1)
 		}
 		if o.Kind == "bmc" && o.Res == "ok" && !o.known {
-			w.Violation("fabricated-head@"+site, wit(nil))
+			sc.violate("fabricated-head@"+site, wit(nil))
 		}
 	}
 
@@ -1018,7 +1047,7 @@ func (sc *scenario) evaluate(complete bool) {
 				cls, focus = "head-only-on-a-connection-that-was-not-the-choice", o
 			}
 		}
-		w.Violation("unsound-ok@porcupine/"+cls, map[string]any{"scenario": sc.desc, "op": focus, "history": trimOps(all, focus)})
+		sc.violate("unsound-ok@porcupine/"+cls, map[string]any{"scenario": sc.desc, "op": focus, "history": trimOps(all, focus)})
 	}
 }
 
